@@ -5,6 +5,19 @@ namespace verif {
 const char *propId() { return "C05"; }
 
 bool prop(Tape &t, Report &R) {
+  if (!t.w.empty() && t.w[0] == kExplicitSpec) {
+    // literal circuit + nets, default parameters of effort 3, top-level layer
+    CircuitSpec s = decodeSpec(t);
+    decodeNets(t, s);
+    if (s.nbMovable() == 0) return true;
+    ColoquinteParameters params(3);
+    DetailedObserver ob;
+    ob.checkWirelength = true;
+    TopLevelOutcome out = runTopLevel(s, params, ob, false);
+    if (out.discarded) return true;
+    if (!out.error.empty()) return R.fail(out.error + " " + s.json());
+    return true;
+  }
   GenOpts o;
   o.polarisedPct = 25;
   if (R.thorough()) o.maxCells = 50, o.maxLevels = 12;
